@@ -159,6 +159,30 @@ def run_exact(res, tier, seed, replay, clauses, algos='signed,fvs,iso', types='d
         shutil.rmtree(wd, ignore_errors=True)
 
 
+def phase_binding(res, tier, seed):
+    """Diagnostic layer (never a verdict): the emission order of every call on small graphs must be explainable as a
+    behaviour of MC_Sva with TLC inferring the support vectors (Trace_Sva.tla)."""
+    rng = random.Random(seed + 17)
+    wd = vlib.scratch(res.pid + '_phase')
+    try:
+        gs, _ = gens.tlc_graphs(wd, 4, [1, 2])
+        sub = [g for g in gs if gens.csd(g) >= 1]
+        sub = sub[::(4 if tier == 'quick' else 1)]
+        sub += [gens.reweight(rng, gens.complete(5), ws) for ws in ([1], [1, 2], [1, 2, 3, 4, 5])]
+        sub += [g for g in gens.random_graphs(rng, 40 if tier == 'quick' else 600, 5, 6, 10, [[1], [1, 2], [1, 2, 3]]) if gens.csd(g) >= 1]
+        lines = [vlib.graph_line(i, g['n'], g['edges'], 1) for i, g in enumerate(sub)]
+        trace = vlib.parallel_record(mcb_harness(), lines, wd, 'phase', extra=['--algos', 'signed,fvs,iso', '--types', 'double', '--forest'])
+        b = vlib.validate_branching('Trace_Sva', 'Trace_Sva.cfg', trace)
+        res.cov['states'] += b['states']
+        res.cov['transitions'] += b['transitions']
+        res.cov['traces_validated_against_impl'] += b['calls']
+        res.cov['phase_binding'] = {'calls_explained_by_MC_Sva_with_inferred_supports': b['calls'] - len(b['anomalies']), 'phase_anomalies': len(b['anomalies']),
+                                    'note': 'diagnostic only: stronger than C01/C02, never a VIOLATION by itself',
+                                    'anomaly_samples': [{'algo': a['call'].get('algo'), 'n': a['call'].get('n'), 'edges': a['call'].get('edges'), 'stuck_at_event': a['stuck_at_event']} for a in b['anomalies'][:3]]}
+    finally:
+        shutil.rmtree(wd, ignore_errors=True)
+
+
 def check_C01(res, tier, seed, replay):
     res.assumptions += ['TLC 1.8 evaluates the TLA+ oracles correctly (OptBrute/OptHorton cross-validated by MC_CycleSpace)',
                         'harness projection edge->insertion index by property-node address is faithful',
@@ -173,6 +197,7 @@ def check_C02(res, tier, seed, replay):
                         'weights are small integers or dyadic rationals, sums < 2^31 (exact in double and int)']
     if not replay:
         model_checks(res, tier)
+        phase_binding(res, tier, seed)
     run_exact(res, tier, seed, replay, CLAUSES['C02'], layouts=3)
 
 
